@@ -4,8 +4,11 @@ C12 — the parser on the token stream of a written datum.
 import SteelVerif.C12.LemmasRun
 namespace SteelVerif.C12
 
-/-- the quasi-quotation bookkeeping is idle -/
-def Good (st : PSt) : Prop := st.depth = 0 ∧ st.qctx = false
+/-- (historical) the round trip used to be proved only for parser states whose quasi-quotation bookkeeping is
+    idle.  Nothing the parser builds from the tokens of a written datum depends on `quasiquote_depth` /
+    `quote_context` / `context` except the renaming in `childClose`, which `FirstOK` excludes - so every state
+    is good, and lists headed by `quasiquote` (which move the depth) are covered. -/
+def Good (_st : PSt) : Prop := True
 
 /-- the frame after a successful push -/
 def Frame.pushed (f : Frame) (d : Datum) (info : Option (List Datum × Bool)) : Frame :=
@@ -78,19 +81,34 @@ def isAtomTok : Tok → Bool
   | .num _ | .bool _ | .chr _ | .str _ | .ident _ | .kw _ | .keyword _ => true
   | _ => false
 
-theorem headAtom_good (st : PSt) (n : Nat) (t : Tok) (hg : Good st) (hq : isQQ (atomToDatum t) = false) :
-    Good (headAtom st n t) := by
-  unfold headAtom
-  cases t <;> try exact hg
-  · rename_i k
-    cases k <;> try exact hg
-    simp only
-    split <;> exact hg
-  · rename_i s
-    simp only [atomToDatum, isQQ, Bool.or_eq_false_iff] at hq
-    obtain ⟨⟨h1, h2⟩, h3⟩ := hq
-    simp only [h1, h2, h3, Bool.false_eq_true, if_false]
-    exact hg
+theorem headAtom_good (st : PSt) (n : Nat) (t : Tok) (_hg : Good st) (_hq : isQQ (atomToDatum t) = false) :
+    Good (headAtom st n t) := trivial
+
+/-- an atom token inside a list, whatever the head of the frame and the parser state -/
+theorem pList_atom' (t : Tok) (hatom : isAtomTok t = true) (pf : Nat) (st : PSt) (stack : List Frame)
+    (cur : Frame) (last : Span) (s e : Nat) (more : List LexItem) (isB : (tokByte t).isSome = true ∨ cur.pmod ≠ some .bytes)
+    (hc : cur.comment = 0) (hd : cur.dot = none ∨ ∃ sp, cur.dot = some (cur.len, sp)) :
+    ∃ st', Good st' ∧ pList (pf + 1) st stack cur last (.tok t s e :: more)
+      = pList pf st' stack (cur.pushed (atomToDatum t) none) (s, e) more := by
+  have hdot : cur.dotBad = false := dotBad_false cur hd
+  have hpush : cur.push (atomToDatum t) (s, e) (tokByte t).isSome none = .ok (cur.pushed (atomToDatum t) none) := by
+    unfold Frame.push Frame.pushed
+    have hb : (cur.pmod == some PMod.bytes && !(tokByte t).isSome) = false := by
+      rcases isB with h | h
+      · simp [h]
+      · cases hp : cur.pmod with
+        | none => rfl
+        | some m => cases m with
+          | vector => rfl
+          | bytes => exact absurd hp h
+    simp only [hdot, hb, hc]
+    cases cur.first <;> simp
+  let st1 : PSt := if t == .kw .quote then { st with quoteStackEmpty := false } else st
+  let st2 : PSt := if cur.len == 0 then headAtom st1 stack.length t else st1
+  refine ⟨st2, trivial, ?_⟩
+  cases t <;> simp [isAtomTok] at hatom <;>
+    (rw [pList] <;> first | (simp only [hpush]; rfl) | (intros; simp_all) | (intro h; cases h))
+
 
 /-- an atom token inside a list -/
 theorem pList_atom (t : Tok) (hatom : isAtomTok t = true) (pf : Nat) (st : PSt) (stack : List Frame)
@@ -146,7 +164,9 @@ theorem pList_dot (pf : Nat) (st : PSt) (stack : List Frame) (cur : Frame) (last
   rw [pList]
   simp [h1, h2, h3, h4]
 
-theorem childClose_id (st : PSt) (prev : Frame) (h : FirstOK prev) : childClose st prev = (st, prev) := by
+/-- a frame whose head is neither `unquote` nor `unquote-splicing` is not renamed when a child closes (the
+    state may change: `quasiquote` heads move the depth) -/
+theorem childClose_snd (st : PSt) (prev : Frame) (h : FirstOK prev) : (childClose st prev).2 = prev := by
   unfold childClose
   cases hf : prev.first with
   | none => rfl
@@ -155,8 +175,9 @@ theorem childClose_id (st : PSt) (prev : Frame) (h : FirstOK prev) : childClose 
     cases x <;> try rfl
     rename_i s
     simp only [isQQ, Bool.or_eq_false_iff] at hq
-    obtain ⟨⟨h1, h2⟩, h3⟩ := hq
-    simp [h1, h2, h3]
+    obtain ⟨h1, h3⟩ := hq
+    simp only [h1, h3, Bool.false_eq_true, if_false]
+    split <;> rfl
 
 theorem ctxAfterChild_good (st : PSt) (n : Nat) (h : Good st) : Good (ctxAfterChild st n) := by
   unfold ctxAfterChild
@@ -173,10 +194,15 @@ theorem pList_close_child (pf : Nat) (st : PSt) (prev : Frame) (stack : List Fra
     (hb : cur.build (s, e) = .ok v) :
     ∃ st', Good st' ∧ pList (pf + 1) st (prev :: stack) cur last (.tok (.close .round) s e :: more)
       = pList pf st' stack (prev.pushed v.d v.info) (s, e) more := by
-  refine ⟨ctxAfterChild st stack.length, ctxAfterChild_good _ _ hg, ?_⟩
+  refine ⟨ctxAfterChild (childClose st prev).1 stack.length, trivial, ?_⟩
+  have hsnd := childClose_snd st prev hf
   rw [pList]
-  simp only [hp, bne_self_eq_false, Bool.false_eq_true, if_false, childClose_id st prev hf, hb,
-    push_ok prev v.d v.sp false v.info hpush]
+  rcases hcc : childClose st prev with ⟨st1, prev1⟩
+  rw [hcc] at hsnd
+  simp only at hsnd
+  subst hsnd
+  simp only [hp, bne_self_eq_false, Bool.false_eq_true, if_false, hcc, hb,
+    push_ok prev1 v.d v.sp false v.info hpush]
 
 /-- closing the outermost list -/
 theorem pList_close_top (pf : Nat) (st : PSt) (cur : Frame) (last : Span) (s e : Nat)
@@ -379,6 +405,141 @@ theorem newFrame_props (s e : Nat) (m : Option PMod) :
   intro x hx
   cases hx
 
+/-! ## lists whose elements are all atoms (the `(unquote x)` family: no `FirstOK` needed) -/
+
+theorem toks_atom (d : Datum) (hw : WF d = true) (hc : isCompound d = false) :
+    ∃ t, toks d = [t] ∧ isAtomTok t = true ∧ atomToDatum t = d := by
+  cases d with
+  | int i => exact ⟨_, rfl, rfl, rfl⟩
+  | rat n d =>
+    refine ⟨_, rfl, rfl, ?_⟩
+    simp only [WF, Bool.and_eq_true, decide_eq_true_eq, beq_iff_eq] at hw
+    exact normRat_lowest n d hw.1 hw.2
+  | bool b => exact ⟨_, rfl, rfl, rfl⟩
+  | chr c => exact ⟨_, rfl, rfl, rfl⟩
+  | str s => exact ⟨_, rfl, rfl, rfl⟩
+  | sym s =>
+    have hok : symOK s = true := by simpa [WF] using hw
+    exact ⟨_, rfl, isAtomTok_symTok s hok, atomToDatum_symTok s hok⟩
+  | flo _ => simp [WF] at hw
+  | other _ => simp [WF] at hw
+  | list _ => simp [isCompound] at hc
+  | vec _ => simp [isCompound] at hc
+  | bytes _ => simp [isCompound] at hc
+  | pair _ _ => simp [isCompound] at hc
+
+
+theorem infoOf_atomic (d : Datum) (hc : isCompound d = false) : infoOf d = none := by
+  cases d <;> simp [isCompound] at hc <;> rfl
+
+/-- a frame grown by pushes, without any claim about its head -/
+structure ExtA (cur cur' : Frame) (xs : List Datum) : Prop where
+  exprs : cur'.exprs = cur.exprs ++ xs
+  openS : cur'.openS = cur.openS
+  paren : cur'.paren = cur.paren
+  pmod : cur'.pmod = cur.pmod
+  dot : cur'.dot = cur.dot
+  comment : cur'.comment = cur.comment
+  lenOK : LenOK cur'
+
+theorem Ext.toA {a b : Frame} {xs : List Datum} (h : Ext a b xs) : ExtA a b xs :=
+  ⟨h.exprs, h.openS, h.paren, h.pmod, h.dot, h.comment, h.lenOK⟩
+
+theorem extA_pushed (cur : Frame) (d : Datum) (info : Option (List Datum × Bool)) (hl : LenOK cur) :
+    ExtA cur (cur.pushed d info) [d] := by
+  obtain ⟨h1, h2, h3, h4, h5, _⟩ := pushed_fields cur d info
+  obtain ⟨e1, e2⟩ := exprs_pushed cur d info hl
+  exact ⟨e1, h1, h2, h3, h4, h5, e2⟩
+
+theorem ExtA.trans {a b c : Frame} {xs ys : List Datum} (h1 : ExtA a b xs) (h2 : ExtA b c ys) :
+    ExtA a c (xs ++ ys) :=
+  ⟨by rw [h2.exprs, h1.exprs, List.append_assoc], h2.openS.trans h1.openS, h2.paren.trans h1.paren,
+   h2.pmod.trans h1.pmod, h2.dot.trans h1.dot, h2.comment.trans h1.comment, h2.lenOK⟩
+
+/-- one written atom inside a list: it is pushed, whatever heads the frame -/
+theorem parse_atomic (d : Datum) (hw : WF d = true) (hc : isCompound d = false) (items : List LexItem)
+    (hi : AllTok items (toks d)) (more : List LexItem) (pf : Nat) (st : PSt) (stack : List Frame) (cur : Frame)
+    (last : Span) (hp : PushOK cur) :
+    ∃ st' last', pList (pf + 1) st stack cur last (items ++ more)
+        = pList pf st' stack (cur.pushed d none) last' more := by
+  obtain ⟨t, ht, hat, hconv⟩ := toks_atom d hw hc
+  rw [ht] at hi
+  obtain ⟨s, e, items', rfl, hi'⟩ := allTok_cons_inv hi
+  have := allTok_nil_inv hi'; subst this
+  obtain ⟨st1, _, h1⟩ := pList_atom' t hat pf st stack cur last s e more (Or.inr hp.2.1) hp.1 hp.2.2
+  rw [hconv] at h1
+  exact ⟨st1, (s, e), by simpa using h1⟩
+
+theorem toksSeq_atoms_length : (xs : List Datum) → WFs xs = true → (∀ x ∈ xs, isCompound x = false) →
+    (toksSeq xs).length = xs.length
+  | [], _, _ => by simp [toksSeq]
+  | x :: xs, hw, ha => by
+    simp only [WFs, Bool.and_eq_true] at hw
+    obtain ⟨t, ht, _, _⟩ := toks_atom x hw.1 (ha x (by simp))
+    simp [toksSeq, ht, toksSeq_atoms_length xs hw.2 (fun y hy => ha y (by simp [hy]))]
+
+/-- a written sequence of atoms inside a list -/
+theorem parse_atoms : (xs : List Datum) → WFs xs = true → (∀ x ∈ xs, isCompound x = false) →
+    ∀ (items : List LexItem), AllTok items (toksSeq xs) →
+    ∀ (more : List LexItem) (pf : Nat) (st : PSt) (stack : List Frame) (cur : Frame) (last : Span),
+    cur.comment = 0 → cur.pmod ≠ some .bytes → cur.dot = none → LenOK cur →
+    ∃ st' last' cur', ExtA cur cur' xs ∧
+      pList (pf + (toksSeq xs).length) st stack cur last (items ++ more) = pList pf st' stack cur' last' more
+  | [], _, _, items, hi, more, pf, st, stack, cur, last, hc, hm, hd, hl => by
+    have := allTok_nil_inv hi
+    subst this
+    exact ⟨st, last, cur, ⟨by simp, rfl, rfl, rfl, rfl, rfl, hl⟩, by simp [toksSeq]⟩
+  | x :: xs, hw, ha, items, hi, more, pf, st, stack, cur, last, hc, hm, hd, hl => by
+    simp only [WFs, Bool.and_eq_true] at hw
+    obtain ⟨ix, ixs, rfl, hix, hixs⟩ := allTok_append_inv hi
+    have hax := ha x (by simp)
+    obtain ⟨st1, last1, h1⟩ := parse_atomic x hw.1 hax ix hix (ixs ++ more) (pf + (toksSeq xs).length)
+      st stack cur last ⟨hc, hm, Or.inl hd⟩
+    have hext := extA_pushed cur x none hl
+    obtain ⟨st2, last2, cur2, hext2, h2⟩ := parse_atoms xs hw.2 (fun y hy => ha y (by simp [hy])) ixs hixs more pf
+      st1 stack _ last1 (hext.comment.trans hc) (by rw [hext.pmod]; exact hm) (hext.dot.trans hd) hext.lenOK
+    refine ⟨st2, last2, cur2, by simpa using hext.trans hext2, ?_⟩
+    obtain ⟨t, ht, _, _⟩ := toks_atom x hw.1 hax
+    have e1 : pf + (toksSeq (x :: xs)).length = pf + (toksSeq xs).length + 1 := by
+      simp [toksSeq, ht]; omega
+    rw [e1, List.append_assoc, h1]
+    exact h2
+
+/-- the two ways a list / vector can be in the class: its head is not renamed, or nothing but atoms follows it
+    (then all its elements are atoms when the head is one of the renamed symbols) -/
+theorem atoms_of_rest {xs : List Datum} (hh : ¬ headOK xs = true) (hr : restAtomic xs = true) :
+    ∀ x ∈ xs, isCompound x = false := by
+  cases xs with
+  | nil => intro x hx; cases hx
+  | cons y ys =>
+    intro x hx
+    rcases List.mem_cons.mp hx with h | h
+    · subst h
+      have : isQQ x = true := by simpa [headOK] using hh
+      cases x <;> simp [isQQ] at this <;> rfl
+    · simp only [restAtomic, List.all_eq_true, Bool.not_eq_true'] at hr
+      exact hr x h
+
+/-- the elements of a list / vector of the class: through `parse_seq` when the head is not renamed (given as a
+    hypothesis, so that this lemma stays outside the mutual recursion), through `parse_atoms` otherwise -/
+theorem elems_dispatch (xs : List Datum) (hw1 : WFs xs = true) (hw2 : (headOK xs || restAtomic xs) = true)
+    (items : List LexItem) (hi : AllTok items (toksSeq xs))
+    (more : List LexItem) (pf : Nat) (st : PSt) (stack : List Frame) (cur : Frame) (last : Span)
+    (hc : cur.comment = 0) (hm : cur.pmod ≠ some .bytes) (hd : cur.dot = none) (hl : LenOK cur)
+    (hseq : headOK xs = true → ∃ st' last' cur', Good st' ∧ Ext cur cur' xs ∧
+      pList (pf + (toksSeq xs).length) st stack cur last (items ++ more) = pList pf st' stack cur' last' more) :
+    ∃ st' last' cur', ExtA cur cur' xs ∧
+      pList (pf + (toksSeq xs).length) st stack cur last (items ++ more) = pList pf st' stack cur' last' more := by
+  by_cases hh : headOK xs = true
+  · obtain ⟨st2, last2, cur2, _, hext, h2⟩ := hseq hh
+    exact ⟨st2, last2, cur2, hext.toA, h2⟩
+  · have hr : restAtomic xs = true := by
+      simp only [Bool.or_eq_true] at hw2
+      rcases hw2 with h | h
+      · exact absurd h hh
+      · exact h
+    exact parse_atoms xs hw1 (atoms_of_rest hh hr) items hi more pf st stack cur last hc hm hd hl
+
 mutual
 /-- the parser, inside a list, on the tokens of one written datum: the datum is pushed -/
 theorem parse_datum : (d : Datum) → WF d = true → ∀ (items : List LexItem), AllTok items (toks d) →
@@ -437,9 +598,12 @@ theorem parse_datum : (d : Datum) → WF d = true → ∀ (items : List LexItem)
     obtain ⟨s', e', ir, rfl, hir⟩ := allTok_cons_inv hiclose
     have := allTok_nil_inv hir; subst this
     obtain ⟨n1, n2, n3, n4, n5, n6⟩ := newFrame_props s e none
-    obtain ⟨st2, last2, cur2, hg2, hext, h2⟩ := parse_seq xs hw.1 iseq hiseq
-      (.tok (.close .round) s' e' :: more) (pf + 1) st (cur :: stack) _ (s, e) hg n1 (by simp) n2 n3 n4
-      (fun _ => hw.2)
+    obtain ⟨st2, last2, cur2, hext, h2⟩ := elems_dispatch xs hw.1 hw.2 iseq hiseq
+      (.tok (.close .round) s' e' :: more) (pf + 1) st (cur :: stack) _ (s, e) n1 (by simp) n2 n3
+      (fun hh => parse_seq xs hw.1 iseq hiseq
+        (.tok (.close .round) s' e' :: more) (pf + 1) st (cur :: stack) _ (s, e) hg n1 (by simp) n2 n3 n4
+        (fun _ => hh))
+    have hg2 : Good st2 := trivial
     have hb := build_list cur2 (s', e') (hext.comment.trans n1) hext.pmod (hext.dot.trans n2)
     obtain ⟨st3, hg3, h3⟩ := pList_close_child pf st2 cur stack cur2 last2 s' e' more _ hext.paren hg2 hf hp hb
     refine ⟨st3, (s', e'), hg3, ?_⟩
@@ -455,9 +619,12 @@ theorem parse_datum : (d : Datum) → WF d = true → ∀ (items : List LexItem)
     obtain ⟨s', e', ir, rfl, hir⟩ := allTok_cons_inv hiclose
     have := allTok_nil_inv hir; subst this
     obtain ⟨n1, n2, n3, n4, n5, n6⟩ := newFrame_props s e (some .vector)
-    obtain ⟨st2, last2, cur2, hg2, hext, h2⟩ := parse_seq xs hw.1 iseq hiseq
-      (.tok (.close .round) s' e' :: more) (pf + 1) st (cur :: stack) _ (s, e) hg n1 (by simp) n2 n3 n4
-      (fun _ => hw.2)
+    obtain ⟨st2, last2, cur2, hext, h2⟩ := elems_dispatch xs hw.1 hw.2 iseq hiseq
+      (.tok (.close .round) s' e' :: more) (pf + 1) st (cur :: stack) _ (s, e) n1 (by simp) n2 n3
+      (fun hh => parse_seq xs hw.1 iseq hiseq
+        (.tok (.close .round) s' e' :: more) (pf + 1) st (cur :: stack) _ (s, e) hg n1 (by simp) n2 n3 n4
+        (fun _ => hh))
+    have hg2 : Good st2 := trivial
     have hb := build_vec cur2 (s', e') (hext.comment.trans n1) hext.pmod
     obtain ⟨st3, hg3, h3⟩ := pList_close_child pf st2 cur stack cur2 last2 s' e' more _ hext.paren hg2 hf hp hb
     refine ⟨st3, (s', e'), hg3, ?_⟩
